@@ -110,7 +110,7 @@ def cells(tier):
 
 
 def run_cell(args):
-    (idx, f, pre, outk, verdict, gtext, has_error, llw, root, use_strace) = args
+    (idx, f, pre, outk, verdict, gtext, has_error, llw, root, use_strace, NOBODY) = args
     root = Path(root) / f"c{idx}"
     if root.exists():
         shutil.rmtree(root)
@@ -141,10 +141,11 @@ def run_cell(args):
     for dp, dn, fn in os.walk(root):
         for n in fn:
             os.utime(Path(dp) / n, ns=(10 ** 18, 10 ** 18))
-    for dp, dn, fn in os.walk(root):
-        for n in dn + fn:
-            os.chown(Path(dp) / n, NOBODY, NOBODY)
-    os.chown(root, NOBODY, NOBODY)
+    if NOBODY is not None:
+        for dp, dn, fn in os.walk(root):
+            for n in dn + fn:
+                os.chown(Path(dp) / n, NOBODY, NOBODY)
+        os.chown(root, NOBODY, NOBODY)
     before = snapshot(root)
     if outk == "readonly":
         os.chmod(out, 0o555)
@@ -167,8 +168,8 @@ def run_cell(args):
     env = dict(ENV)
     env["HOME"] = str(cwd)
     try:
-        p = subprocess.run(full, cwd=str(cwd), env=env, stdout=subprocess.PIPE, stderr=subprocess.PIPE, timeout=60,
-                           user=NOBODY, group=NOBODY, extra_groups=[])
+        kw = dict(user=NOBODY, group=NOBODY, extra_groups=[]) if NOBODY is not None else {}
+        p = subprocess.run(full, cwd=str(cwd), env=env, stdout=subprocess.PIPE, stderr=subprocess.PIPE, timeout=60, **kw)
         rc, so, se = p.returncode, p.stdout.decode(errors="replace"), p.stderr.decode(errors="replace")
     except subprocess.TimeoutExpired:
         rc, so, se = "timeout", "", ""
@@ -310,8 +311,6 @@ def main(tier):
     chk = Check("C19", tier)
     bins = build_bins("release")
     llw = bins["llw"]
-    if os.geteuid() != 0:
-        raise Inconclusive("needs root to run llw as an unprivileged user (read-only directories)")
     rng = random.Random(get_seed())
     pr = Probe("release")
     verdict_of = {}
@@ -339,6 +338,25 @@ def main(tier):
         except OSError:
             pass
     have_strace = shutil.which("strace") is not None
+    # pre-flight: can the unprivileged user reach the tree and run llw there?  (not when /verif lives under a
+    # directory closed to other users)  If not, the table runs as the current user and the read-only cells are dropped.
+    global NOBODY
+    pf = root / "preflight"
+    pf.mkdir()
+    if os.geteuid() == 0:
+        os.chown(pf, NOBODY, NOBODY)
+    (pf / "g.llw").write_text(GRAMMARS["accepted"][0])
+    try:
+        if os.geteuid() != 0:
+            raise OSError("not root")
+        r = subprocess.run([str(llw), "-c", "g.llw"], cwd=str(pf), env=ENV, stdout=subprocess.PIPE, stderr=subprocess.PIPE, user=NOBODY, group=NOBODY, extra_groups=[], timeout=60)
+        unpriv_ok = r.returncode == 0
+    except (OSError, subprocess.SubprocessError):
+        unpriv_ok = False
+    shutil.rmtree(pf, ignore_errors=True)
+    if not unpriv_ok:
+        NOBODY = None
+        chk.note("unprivileged_user", "uid 65534 cannot run llw inside the work tree here: the table runs as the current user, read-only output cells are left out")
     jobs = []
     allcells = list(cells(tier))
     if tier == "quick":
@@ -350,17 +368,19 @@ def main(tier):
             if plain or (hash((f["check"], f["format"], f["graph"], f["short"], f["verbose"], o, v)) + get_seed()) % 6 == ["none", "lexer", "parser", "both", "old_generated", "both+old_generated"].index(p):
                 sel.append((f, p, o, v))
         allcells = sel
+    if NOBODY is None:
+        allcells = [c for c in allcells if c[2] != "readonly"]
     for i, (f, p, o, v) in enumerate(allcells):
         if v in GRAMMARS:
             g = GRAMMARS[v][(i + get_seed()) % len(GRAMMARS[v])]
             he = verdict_of[g]
         else:
             g, he = GRAMMARS["accepted"][0], None
-        jobs.append((i, f, p, o, v, g, he, str(llw), str(root), have_strace))
+        jobs.append((i, f, p, o, v, g, he, str(llw), str(root), have_strace, NOBODY))
     log(f"[C19] {len(jobs)} cells (strace: {have_strace})")
     results = pmap(run_cell, jobs, 16)
     by_rc = {}
-    for (i, f, p, o, v, g, he, _, _, _), r in zip(jobs, results):
+    for (i, f, p, o, v, g, he, _, _, _, _), r in zip(jobs, results):
         if r.get("inconclusive"):
             chk.inconclusive_because(f"cell {r['idx']}: {r['inconclusive']}")
             continue
